@@ -6,6 +6,7 @@ package sim
 import (
 	"bytes"
 	"fmt"
+	"time"
 )
 
 func init() {
@@ -73,6 +74,18 @@ func runC19(rc *RunCtx) {
 			sc.Then = n
 		}
 	}
+	if flavour == 0 && sc.Then == nil && sc.Kind != KSerial && t.Chance(1, 4) {
+		// the client is connected again (with or without closing first) and used for another call
+		if n, ok := genC07Kind(rc, int(sc.Kind)); ok {
+			n.ReadTimeout, n.WriteTimeout = sc.ReadTimeout, sc.WriteTimeout
+			if need := 2*totalGap(n.Chunks) + 50*time.Millisecond; sc.ReadTimeout < need {
+				n.Chunks = []Chunk{{N: len(n.Reply)}}
+			}
+			n.Reconnect = 1 + t.Choose(2)
+			n.Then = nil
+			sc.Then = n
+		}
+	}
 	sc.Hooks = true
 	sc.ObserveParse = sc.Kind != KSerial
 	sc.WrappedTimeouts = sc.Kind != KSerial && t.Choose(2) == 1
@@ -134,6 +147,9 @@ func checkC19Call(rc *RunCtx, sc *C1, withHooks, without *C1Outcome, idx int) {
 		return
 	}
 
+	if withHooks.PendingRead {
+		rc.Violate("read_never_reported", base, "Do returned while a transport read it had started was still in progress: whatever that read produces is reported to no hook of this call")
+	}
 	// --- hook arguments against the transport's own record ---
 	var hw, hr, hp []hookRec
 	for _, h := range withHooks.Hooks {
